@@ -19,6 +19,8 @@ import (
 	"github.com/z7zmey/php-parser/pkg/visitor/nsresolver"
 	"github.com/z7zmey/php-parser/pkg/visitor/printer"
 	"github.com/z7zmey/php-parser/pkg/visitor/traverser"
+
+	"verif/harness"
 )
 
 // Ver is a (major, minor) pair.
@@ -59,6 +61,7 @@ func ParseV(src []byte, v *version.Version, cb bool) (res Result) {
 			res.Panic = fmt.Sprintf("%v\n%s", r, libFrames(string(debug.Stack())))
 		}
 	}()
+	harness.Remember(src)
 	cfg := conf.Config{Version: v}
 	if cb {
 		cfg.ErrorHandlerFunc = func(e *errors.Error) { res.Errs = append(res.Errs, e) }
